@@ -51,7 +51,11 @@
               and the exact Bezier curve -- vertices, chord points and curve
               points (C17_bezier_hausdorff_ieee; C17_bezier_hausdorff_ieee_depth
               for any depth bound d of the binary32 tree); E_bez is explicit
-              (pin_E_bez), e.g. <= 1/40 for cubic segments with |c| <= 1024.
+              (pin_E_bez), e.g. <= 1/40 for cubic segments with |c| <= 1024;
+              the same with the smaller allowance E_bez_t (pin_E_bez_t), whose
+              only depth-dependent term is 3/2 (k + 1) m u: for cubics
+              E_bez_t E 3 19 <= 2^-19 + 161 * 2^(E-25)
+              (C17_bezier_hausdorff_ieee_tight, C17_E_bez_t_cubic).
 
      arc      under explicit accuracy hypotheses on libm's sin / cos (finite,
               |result| <= 1, within el of the real function; hypotheses of the
@@ -86,7 +90,7 @@ From RM Require Import Model.ControlPoints Model.Curve Gen.Generated Proofs.Bezi
   Proofs.HausdorffPlane Proofs.HausdorffArc Proofs.HausdorffBezierCore Proofs.HausdorffBezier
   Proofs.HausdorffCatmull Proofs.HausdorffCatmullDeriv Proofs.HausdorffSimplify
   Proofs.BezierIEEE Proofs.BezierIEEETight Proofs.VertexIEEEBase Proofs.VertexIEEECatmull Proofs.VertexIEEECatmullPath
-  Proofs.VertexIEEEBezierScalar Proofs.VertexIEEEBezier Proofs.VertexIEEEBezierPath Proofs.VertexIEEEArc.
+  Proofs.VertexIEEEBezierScalar Proofs.VertexIEEEBezier Proofs.VertexIEEEBezierPath Proofs.VertexIEEEBezierTight Proofs.VertexIEEEArc.
 From Flocq Require Import Core BinarySingleNaN.
 From Coq Require Import Reals.
 Open Scope Z_scope.
@@ -785,6 +789,57 @@ Theorem C17_bezier_hausdorff_ieee :
          (dist2 (B t) (lerp2 (posR (nth k new pos0)) (posR (nth (S k) new pos0)) s) <= K)%R).
 Proof. exact bezier_hausdorff_ieee. Qed.
 Print Assumptions C17_bezier_hausdorff_ieee.
+
+(* the same bound with the smaller allowance E_bez_t: the discrepancy between
+   the second differences of a node and of the exact control polygon it stands
+   for does not grow with the depth (fixed point 16/3 m u) *)
+Example pin_E_bez_t : forall E m k,
+  E_bez_t E m k =
+  (INR m * (2 * INR m - 1) / 8 * (bpow radix2 (-20) + 3 / 2 * (bpow radix2 (E - 22) + 16 / 3 * (INR m * uE E)))
+   + 3 / 2 * (INR k * (INR m * uE E) + INR m * uE E + (bpow radix2 (E - 24) + bpow radix2 (-150))))%R.
+Proof. reflexivity. Qed.
+
+Theorem C17_bezier_hausdorff_ieee_tight_depth :
+  forall E points n' d path fuel path', 0 <= E <= 40 ->
+  length points = S (S n') -> Forall (point_ok E) points -> within32 d points ->
+  approximate_bezier_L1 fuel path points tt = Done (path', tt) ->
+  let K := (Kbez (S n') + E_bez_t E (S n') d)%R in
+  let B := Bez (map posR points) in
+  exists new, path' = path ++ new /\ (2 <= length new)%nat /\ Forall pos_fin new /\
+    (forall k, (k < length new)%nat ->
+       exists t, (0 <= t <= 1)%R /\ (dist2 (B t) (posR (nth k new pos0)) <= K)%R) /\
+    (forall k s, (S k < length new)%nat -> (0 <= s <= 1)%R ->
+       exists t, (0 <= t <= 1)%R /\
+         (dist2 (B t) (lerp2 (posR (nth k new pos0)) (posR (nth (S k) new pos0)) s) <= K)%R) /\
+    (forall t, (0 <= t <= 1)%R ->
+       exists k s, (S k < length new)%nat /\ (0 <= s <= 1)%R /\
+         (dist2 (B t) (lerp2 (posR (nth k new pos0)) (posR (nth (S k) new pos0)) s) <= K)%R).
+Proof. exact bezier_hausdorff_ieee_tight_depth. Qed.
+Print Assumptions C17_bezier_hausdorff_ieee_tight_depth.
+
+Theorem C17_bezier_hausdorff_ieee_tight :
+  forall E points n' path fuel path', 0 <= E -> Z.of_nat (length points) * 2 ^ E <= 2 ^ 22 ->
+  length points = S (S n') -> Forall (point_ok E) points ->
+  approximate_bezier_L1 fuel path points tt = Done (path', tt) ->
+  let K := (Kbez (S n') + E_bez_t E (S n') 19)%R in
+  let B := Bez (map posR points) in
+  exists new, path' = path ++ new /\ (2 <= length new)%nat /\ Forall pos_fin new /\
+    (forall k, (k < length new)%nat ->
+       exists t, (0 <= t <= 1)%R /\ (dist2 (B t) (posR (nth k new pos0)) <= K)%R) /\
+    (forall k s, (S k < length new)%nat -> (0 <= s <= 1)%R ->
+       exists t, (0 <= t <= 1)%R /\
+         (dist2 (B t) (lerp2 (posR (nth k new pos0)) (posR (nth (S k) new pos0)) s) <= K)%R) /\
+    (forall t, (0 <= t <= 1)%R ->
+       exists k s, (S k < length new)%nat /\ (0 <= s <= 1)%R /\
+         (dist2 (B t) (lerp2 (posR (nth k new pos0)) (posR (nth (S k) new pos0)) s) <= K)%R).
+Proof. exact bezier_hausdorff_ieee_tight. Qed.
+Print Assumptions C17_bezier_hausdorff_ieee_tight.
+
+(* cubic segments, depth 19, any magnitude 2^E: below 4.8e-6 * 2^E + 2e-6 *)
+Theorem C17_E_bez_t_cubic :
+  forall E, 0 <= E -> (E_bez_t E 3 19 <= 2 * bpow radix2 (-20) + 161 * bpow radix2 (E - 25))%R.
+Proof. exact E_bez_t_cubic. Qed.
+Print Assumptions C17_E_bez_t_cubic.
 
 Example pin_pos_fin : forall p, pos_fin p <-> (is_finite (px p) = true /\ is_finite (py p) = true).
 Proof. intros. reflexivity. Qed.
